@@ -267,7 +267,10 @@ func dmaOracle(r *Run, rng *Rng) {
 	answeredAll := func() bool { return len(e.outstanding) == 0 }
 	done := map[int]int{}
 	for step := 0; step < 4000; step++ {
-		e.dma.Tick()
+		if f := catch(func() { e.dma.Tick() }); f != "" {
+			r.Failf("C11.dma.panic", line, "the DMA engine panicked under an honest memory side: %s", f)
+			return
+		}
 		for {
 			m := e.dma.ToMem.RetrieveOutgoing()
 			if m == nil {
